@@ -34,6 +34,23 @@ def trigTable (b c : Nat) : List (Int × Int) :=
   (List.range (c + 1)).flatMap fun k1 =>
     (List.range (b + 1)).map fun k2 => (freq b c k1 k2, coeff b c k1 k2)
 
+/-- where the code takes the transform value of one term from (since /repo c7c1f2a):
+    `dist.cf(freq)` if `id_power == 0`; `I**id_power * dist.get_moment(id_power)` if `freq == 0`
+    (the closed forms of cf can be singular / Piecewise at 0); otherwise
+    `diff(dist.cf(t), t, id_power).xreplace({t: freq})` -/
+inductive TermSource
+  | cf | moment | cfDeriv
+  deriving DecidableEq, Repr
+
+def TermSource.toString : TermSource → String
+  | .cf => "cf" | .moment => "moment" | .cfDeriv => "cf_deriv"
+
+def termSource (a : Nat) (w : Int) : TermSource :=
+  if a = 0 then .cf else if w = 0 then .moment else .cfDeriv
+
+/-- sources of the terms of `trigTable b c`, in loop order -/
+def trigSources (a b c : Nat) : List TermSource := (trigTable b c).map fun t => termSource a t.1
+
 /-- the divisor `I ** (id_power + sin_power) * 2 ** (cos_power + sin_power)`:
     (exponent of i reduced mod 4, exponent of 2) -/
 def trigNorm (a b c : Nat) : Nat × Nat := ((a + b) % 4, b + c)
